@@ -10,6 +10,7 @@ import (
 
 	"github.com/MichaelMure/git-bug/entities/bug"
 	"github.com/MichaelMure/git-bug/entities/identity"
+	"github.com/MichaelMure/git-bug/entity"
 	"github.com/MichaelMure/git-bug/zzverif/model"
 	"github.com/MichaelMure/git-bug/zzverif/sim"
 	"github.com/MichaelMure/git-bug/zzverif/verifrt"
@@ -27,6 +28,13 @@ func init() {
 }
 
 func (e *CrashEngine) Describe(prop string) sim.PropInfo {
+	if prop == "C02" || prop == "C04" {
+		info := (&Engine{}).Describe(prop)
+		info.Level = "fault_enumeration"
+		info.Rule = "generated scenarios (2 replicas, 1 hub, 4-14 fault-free set-up steps) each ending in one pull or merge on replica 0 whose local entities may be behind, ahead or diverged; the target's storage calls are counted in a fault-free run and then EVERY read call and EVERY mutation (sampled only above 120) is executed as that one call returning an I/O error, from a restored copy of the pre-state, the process going on afterwards; evaluations = error cases; non-trivial = scenario whose target issued at least 5 mutations; distinct = distinct (scenario log hash)"
+		info.Kinds = []string{"entity-became-unreadable", "operation-lost", "edit-after-merge-dropped-ops"}
+		return info
+	}
 	info := (&Engine{}).Describe("C01")
 	info.Level = "fault_enumeration"
 	info.Rule = "generated scenarios (2 replicas, 1 hub, 4-14 fault-free set-up steps) each ending in one target write action on replica 0 (new bug, edit+commit with one or several authors, new identity, identity mutation, merge, pull); the target's storage mutations (RepoData/RepoClock calls and every file-system call on .git/git-bug) are counted in a fault-free run and then EVERY mutation index k (sampled only above 200) and every torn variant of a file write at k (nothing / all / 1 byte / half / all but one byte) is executed as a crash from a restored copy of the pre-state; evaluations = crash cases; non-trivial = scenario whose target issued at least 5 mutations; distinct = distinct (scenario log hash)"
@@ -96,6 +104,10 @@ func (e *CrashEngine) Generate(prop, tier string, seed uint64, run int) *sim.Pla
 		fill(add(op, r.Intn(2)))
 	}
 	target := []string{"newbug", "edit", "edit", "identmut", "newident", "pull", "pull", "pull", "merge"}[r.Intn(9)]
+	if prop == "C02" || prop == "C04" {
+		target = []string{"pull", "pull", "merge"}[r.Intn(3)]
+		p.Cfg["mode"] = "ioerror"
+	}
 	if target == "pull" || target == "merge" {
 		// make sure there is something to merge: the peer edits and pushes, replica 0 may diverge
 		k := r.Range(1, 3)
@@ -124,7 +136,7 @@ func (e *CrashEngine) Generate(prop, tier string, seed uint64, run int) *sim.Pla
 	}
 	tgt := add(target, 0)
 	fill(tgt)
-	if target == "pull" && !foreign && r.Chance(0.5) { // (the one-call API stops at the first refused entity and reports an error: nothing to enumerate)
+	if target == "pull" && !foreign && r.Chance(0.5) && prop != "C02" && prop != "C04" { // (C02: the process goes on after the error, and the one-call API abandons its goroutines at the first error) // (the one-call API stops at the first refused entity and reports an error: nothing to enumerate)
 		tgt.K = "pull-api" // the one-call API (identity.Pull + bug.Pull, RepoCache.Pull): fetch and merge in one interrupted action
 	}
 	if target == "edit" && r.Chance(0.5) {
@@ -230,6 +242,9 @@ func (e *CrashEngine) Execute(p *sim.Plan, keepLog bool) (res *sim.RunResult) {
 			res.Trace = w.Log.Lines
 		}
 	}()
+	if p.CfgStr("mode", "") == "ioerror" {
+		x.prop = "C06" // the per-step monitors of C02 judge fault-free pulls; this engine brings its own oracle
+	}
 	if len(p.Steps) < 2 {
 		res.HarnessErr = "plan too short"
 		return res
@@ -297,8 +312,10 @@ func (e *CrashEngine) Execute(p *sim.Plan, keepLog bool) (res *sim.RunResult) {
 	pre := entitySigs(r.Raw)
 	r.C.KeepTrace = true
 	base := r.C.MutCount()
+	baseReads := r.C.ReadCount()
 	errRef := runTarget()
 	M := r.C.MutCount() - base
+	refReads := r.C.ReadCount() - baseReads
 	trace := append([]string{}, r.C.Trace...)
 	{
 		norm := make([]string, len(trace))
@@ -348,6 +365,10 @@ func (e *CrashEngine) Execute(p *sim.Plan, keepLog bool) (res *sim.RunResult) {
 		x.probe("target_changed_state")
 	}
 
+	if p.CfgStr("mode", "") == "ioerror" {
+		e.ioErrorCases(x, rs, target.Op, restore, runTarget, wallBase, pre, M, refReads)
+		return res
+	}
 	// ---- crash cases
 	type ccase struct {
 		k    int
@@ -575,4 +596,149 @@ func (e *CrashEngine) Execute(p *sim.Plan, keepLog bool) (res *sim.RunResult) {
 	}
 	res.Lamport = uint64(M)
 	return res
+}
+
+
+// ioErrorCases (C02): the target pull or merge is executed once per read call and once per
+// mutation it issued in the reference run, that one call returning an I/O error; the process
+// goes on. Whatever the pull then reports, every entity that was readable before is readable
+// and holds every operation or version it held before.
+func (e *CrashEngine) ioErrorCases(x *run, rs *repState, op string, restore func() error, runTarget func() error, wallBase int64, pre map[string]string, M, R int) {
+	r, w, res := rs.r, x.w, x.res
+	type ecase struct {
+		class string
+		k     int
+	}
+	var cases []ecase
+	if _, pinned := x.p.Cfg["err_k"]; pinned {
+		cases = []ecase{{x.p.CfgStr("err_class", "read"), x.p.CfgInt("err_k", 0)}}
+	} else {
+		for _, cn := range []struct {
+			class string
+			n     int
+		}{{"read", R}, {"any", M}} {
+			stride := 1
+			if cn.n > 120 {
+				stride = (cn.n + 119) / 120
+			}
+			for k := 0; k < cn.n; k += stride {
+				cases = append(cases, ecase{cn.class, k})
+			}
+		}
+	}
+	for _, c := range cases {
+		res.Cases++
+		if err := restore(); err != nil {
+			res.HarnessErr = "restore: " + err.Error()
+			return
+		}
+		r.Wall = wallBase
+		if err := r.Open(); err != nil {
+			res.HarnessErr = fmt.Sprintf("open before error case %s %d: %v", c.class, c.k, err)
+			return
+		}
+		rs.alive = true
+		rs.staged = map[string]bool{}
+		if r.Cache != nil {
+			// a session that has been running for a while: the bugs are loaded in the cache
+			w.Act(r)
+			for _, id := range r.Cache.Bugs().AllIds() {
+				_, _ = r.Cache.Bugs().Resolve(id)
+			}
+		}
+		goBase := verifrt.LiveGoroutines()
+		r.C.ArmErr(c.class, c.k, 1)
+		errT := runTarget()
+		fired := r.C.DisarmErr()
+		for _, pr := range verifrt.TakePanicsQuiesced(goBase) {
+			x.probe("panic_observed")
+			w.Log.Note("panic in %s: %s", pr.Site, pr.Value)
+		}
+		w.Log.Note("error case %s %d: fired %d, target error %v", c.class, c.k, fired, errT)
+		if fired == 0 {
+			x.probe("error_point_not_reached")
+		} else {
+			w.Stats.Fault("ioerr-" + c.class)
+			now := entitySigs(r.Raw)
+			pin := map[string]interface{}{"err_class": c.class, "err_k": c.k}
+			viol := func(kind, format string, a ...interface{}) {
+				if x.viol[kind] {
+					return
+				}
+				x.viol[kind] = true
+				res.Violations = append(res.Violations, sim.Violation{Property: x.p.Property, Kind: kind, Step: x.step, Pin: pin,
+					Detail: fmt.Sprintf("%s in which the %s call number %d failed with an I/O error (the %s reported: %v): ", op, map[string]string{"read": "read", "any": "storage mutation"}[c.class], c.k, op, errT) + fmt.Sprintf(format, a...)})
+			}
+			for k, was := range pre {
+				if strings.HasPrefix(was, "ERR:") {
+					continue
+				}
+				v, ok := now[k]
+				switch {
+				case !ok:
+					viol("entity-became-unreadable", "%s is gone", k)
+				case strings.HasPrefix(v, "ERR:"):
+					viol("entity-became-unreadable", "%s was readable before and is not any more: %s", k, v)
+				default:
+					sep := ","
+					if strings.HasPrefix(k, "identity:") {
+						sep = " >> "
+					}
+					have := map[string]bool{}
+					for _, o := range strings.Split(v, sep) {
+						have[o] = true
+					}
+					for _, o := range strings.Split(was, sep) {
+						if !have[o] {
+							viol("operation-lost", "%s held %q before and holds %q now", k, sim.Trunc(was, 200), sim.Trunc(v, 200))
+							break
+						}
+					}
+				}
+			}
+		}
+		// the process goes on: an edit made through the cache afterwards builds on what the pull left
+		if fired > 0 && r.Cache != nil && x.p.Property == "C02" {
+			afterPull := entitySigs(r.Raw)
+			var ids []string
+			for k := range afterPull {
+				if strings.HasPrefix(k, "bug:") && !strings.HasPrefix(afterPull[k], "ERR:") {
+					ids = append(ids, strings.TrimPrefix(k, "bug:"))
+				}
+			}
+			sort.Strings(ids)
+			for _, id := range ids {
+				w.Act(r)
+				bc, err := r.Cache.Bugs().Resolve(entity.Id(id))
+				if err != nil {
+					continue
+				}
+				if _, _, err := bc.AddComment("after the pull"); err != nil {
+					continue
+				}
+				if err := bc.Commit(); err != nil {
+					continue
+				}
+				x.probe("edit_after_a_pull_that_met_an_error")
+			}
+			afterEdit := entitySigs(r.Raw)
+			for _, id := range ids {
+				have := map[string]bool{}
+				for _, o := range strings.Split(afterEdit["bug:"+id], ",") {
+					have[o] = true
+				}
+				for _, o := range strings.Split(afterPull["bug:"+id], ",") {
+					if !have[o] && !x.viol["edit-after-merge-dropped-ops"] {
+						x.viol["edit-after-merge-dropped-ops"] = true
+						res.Violations = append(res.Violations, sim.Violation{Property: "C02", Kind: "edit-after-merge-dropped-ops", Step: x.step,
+							Pin: map[string]interface{}{"err_class": c.class, "err_k": c.k},
+							Detail: fmt.Sprintf("%s in which the %s call number %d failed with an I/O error, then a comment added through the same cache: bug %s held %q after the %s and holds %q after the edit", op, c.class, c.k, id[:7], sim.Trunc(afterPull["bug:"+id], 160), op, sim.Trunc(afterEdit["bug:"+id], 160))})
+					}
+				}
+			}
+		}
+		_ = r.CloseClean()
+		rs.alive = false
+		w.Log.EndStep(fmt.Sprintf("error case %s %d", c.class, c.k), true)
+	}
 }
